@@ -89,11 +89,12 @@ def tvh_json(args, **kw):
 # Worker pool for JSONL case batches with death/hang attribution
 # ---------------------------------------------------------------------------------------------
 
-def _worker(exe, sub_args, cases, results, idx, hang_s, as_gb, stack_kb):
+def _worker(exe, sub_args, cases, results, idx, hang_s, as_gb, stack_kb, max_deaths=0):
     """Feed `cases` (list of dict with 'id') to one worker; on death attribute to the case in flight.
     Input and output go through files; the parent only watches output growth (hang detection)."""
     os.makedirs(CACHE, exist_ok=True)
     pos = 0
+    ndead = 0
     while pos < len(cases):
         fn = os.path.join(CACHE, "w%d_%d.in" % (os.getpid(), idx))
         fo = os.path.join(CACHE, "w%d_%d.out" % (os.getpid(), idx))
@@ -144,6 +145,13 @@ def _worker(exe, sub_args, cases, results, idx, hang_s, as_gb, stack_kb):
                 results[cases[k]["id"]] = {"id": cases[k]["id"], "status": dead, "value": "", "err": "", "log": [],
                                             "msg": "worker " + dead, "steps": 0, "trace": [], "stale": 0}
                 pos = k + 1
+                ndead += 1
+                if max_deaths and ndead >= max_deaths:
+                    # a tree that kills or hangs the worker this often has been convicted already: the rest of
+                    # this shard is reported as not run instead of spending hang_s on every further case
+                    for c in cases[pos:]:
+                        results[c["id"]] = {"id": c["id"], "status": "skipped", "value": "", "err": "", "log": [], "msg": "not run: %d worker deaths/hangs before it in this shard" % ndead, "steps": 0, "trace": [], "stale": 0}
+                    pos = len(cases)
             else:
                 break
         elif pos < len(cases):
@@ -155,7 +163,7 @@ def _worker(exe, sub_args, cases, results, idx, hang_s, as_gb, stack_kb):
                 pass
 
 
-def run_batch(cases, sub_args=("run",), profile="chk", nworkers=None, hang_s=20, as_gb=1, stack_kb=8192):
+def run_batch(cases, sub_args=("run",), profile="chk", nworkers=None, hang_s=20, as_gb=1, stack_kb=8192, max_deaths=0):
     """Run cases (dicts with unique 'id') over a pool; returns {id: observation}."""
     exe = build(profile)
     nworkers = nworkers or NCPU
@@ -166,7 +174,7 @@ def run_batch(cases, sub_args=("run",), profile="chk", nworkers=None, hang_s=20,
 
     def go(i):
         try:
-            _worker(exe, list(sub_args), shards[i], results, i, hang_s, as_gb, stack_kb)
+            _worker(exe, list(sub_args), shards[i], results, i, hang_s, as_gb, stack_kb, max_deaths)
         except Exception as e:  # noqa
             errs.append(e)
 
